@@ -17,7 +17,8 @@ RULE = ('generated VCFs (1-4 contigs incl. one un-cacheable name, 1-4 samples, p
         'eager, lazy, use_cache(first run writing), use_cache(second run reading) with both values of the lazyLoad flag, and by a cache '
         'written under a different ignore_conversions setting; all (contig,pos,base) of the VCF +- absent positions and an absent contig are '
         'queried in a random contig order that returns to evicted contigs. Non-trivial = query on a site stored by at least one mode; '
-        'distinct = distinct (vcf, configuration, contig, pos, base).')
+        'distinct = distinct (vcf, configuration, contig, pos, base).'
+        ' Plus the empty sample selection, caches written under another sample selection, panels of 18-32 long sample names (cache file name over 255 bytes).')
 ASSUMPTIONS = ['pysam VariantFile / tabix are trusted', 'truth is only demanded on clean sites (every selected sample has a single-base, non-missing genotype, '
                '>= 2 distinct bases over the selected samples, no ignored conversion); elsewhere answers must be a subset of the carriers',
                'positions >= 0 are queried (position -1 is an internal sentinel)']
